@@ -55,7 +55,7 @@ func (s *Script) OnData(c *Conn, data []byte) error {
 			s.Net.log(WireEvent{Conn: c.ID, Dir: '>', Pkt: p, Raw: raw, Note: "LOST, write error"})
 			c.Break("scripted write error")
 			s.acc = nil
-			return ErrLinkDown
+			return s.Net.LinkDownErr()
 		}
 		if s.TransientFail != nil && s.TransientFail(p) {
 			s.Net.log(WireEvent{Conn: c.ID, Dir: '>', Pkt: p, Raw: raw, Note: "LOST, write error (link stays up)"})
